@@ -2,6 +2,7 @@
 
 use crate::engines::*;
 use crate::gen::Cfg;
+use crate::gen;
 use crate::history::*;
 use crate::hooks::{poison_stats, PoisonGuard};
 use crate::props::PropDef;
@@ -12,7 +13,7 @@ use proptest::prelude::*;
 pub fn def() -> PropDef {
     PropDef {
         id: "C05",
-        rule: "generated histories (1..12 ops) on one encoder or decoder of every family x engine: reset to other counts / shard size / rate, complete rounds (result read or dropped unread), abandoned partial rounds, failing adds, failing resets, premature encode/decode, into_parts -> new(Some(work)) into another family and engine; half of the histories with the poison hook armed (every byte of working memory that survives a resize is replaced by seeded noise). oracle: at every encode/decode the calls made since the last reset / dropped result are replayed on a freshly constructed object of the current configuration; every call result and the output bytes must be identical. non-trivial: >=2 completed rounds with a configuration change, recycle, failed call or poison in between; distinct by full history",
+        rule: "generated histories (1..12 ops) on one encoder or decoder of every family x engine: reset to other counts / shard size / rate, complete rounds (result read or dropped unread), abandoned partial rounds, failing adds, failing resets, premature encode/decode, into_parts -> new(Some(work)) into another family and engine; half of the histories with the poison hook armed (every byte of working memory that survives a resize is replaced by seeded noise). oracle: at every encode/decode the calls made since the last reset / dropped result are replayed on a freshly constructed object of the current configuration; every call result and the output bytes must be identical. part big_history: the same oracle on few, long shards (working spaces 1 MiB .. 128 MiB quick / 512 MiB thorough, log-uniform) with several rounds per object. non-trivial: >=2 completed rounds on the one object (the classes report how many of them had a configuration change, recycle, failed call or poison in between); distinct by full history",
         assumptions: &[
             "an implementation does not carry knowledge about the *contents* of working memory across a resize (poison only overwrites the retained prefix, where real stale bytes live)",
             "shard contents are arbitrary bytes: the decoder is compared with a fresh decoder on the same inputs, consistency of the shards is not needed for this property",
@@ -30,14 +31,51 @@ fn strategy(t: Tier) -> BoxedStrategy<History> {
 }
 
 fn parts() -> Vec<Box<dyn PartDyn>> {
-    vec![Box::new(GenPart {
-        name: "history",
-        quick: 20_000,
-        thorough: 200_000,
-        shrink_iters: 1500,
-        strat: strategy,
-        check,
-    })]
+    vec![
+        Box::new(GenPart { name: "history", quick: 20_000, thorough: 200_000, shrink_iters: 1500, strat: strategy, check }),
+        Box::new(GenPart { name: "big_history", quick: 14, thorough: 400, shrink_iters: 30, strat: big_strategy, check: check_big }),
+    ]
+}
+
+/// few, long shards: working spaces from 1 MiB to 128 MiB (quick) / 512 MiB (thorough), log-uniform,
+/// several rounds on one object with and without resets in between (size-dependent fast paths)
+fn big_strategy(t: Tier) -> BoxedStrategy<History> {
+    let max_q = t.pick(4 * 27u8, 4 * 29u8);
+    let cfg = move || {
+        (1usize..=8, 1usize..=8, any::<bool>(), prop_oneof![1 => (4 * 20u8)..=(4 * 24u8), 3 => (4 * 24u8)..=max_q], 0usize..64).prop_map(|(bounded, other, flip, q, jitter)| {
+            let bytes = 2f64.powf(q as f64 / 4.0) as usize;
+            let positions = (bounded.next_power_of_two() + other).next_power_of_two();
+            RawCfg { bounded, other, flip, size: ((bytes / positions) / 2 * 2 + jitter * 2).max(2) }
+        })
+    };
+    let op = prop_oneof![
+        6 => (any::<u64>(), gen::recv_spec()).prop_map(|(seed, recv)| Op::Round { seed, recv, read: true }),
+        1 => Just(Op::ResetSame),
+        1 => cfg().prop_map(Op::Reset),
+        1 => (gen::kind_rate(), gen::engine(), cfg(), any::<bool>()).prop_map(|(kind, eng, cfg, same)| Op::Recycle { kind, eng, cfg, same }),
+    ];
+    (any::<bool>(), gen::kind_any())
+        .prop_flat_map(move |(dec, kind)| {
+            (gen::engine_for(kind), cfg(), prop::collection::vec(op.clone(), 2..=5)).prop_map(move |(eng, init, ops)| {
+                // the slow engines would take seconds per round at these sizes
+                let eng = if eng == Eng::Naive || eng == Eng::Neon { Eng::NoSimd } else { eng };
+                History { dec, kind, eng, init, poison: false, ops }
+            })
+        })
+        .boxed()
+}
+
+fn check_big(h: &History, st: &mut Stats) -> CheckResult {
+    let biggest = std::iter::once(&h.init)
+        .chain(h.ops.iter().filter_map(|o| match o {
+            Op::Reset(c) | Op::Recycle { cfg: c, .. } => Some(c),
+            _ => None,
+        }))
+        .map(|c| (c.bounded.next_power_of_two() + c.other).next_power_of_two() * c.size.div_ceil(64) * 64)
+        .max()
+        .unwrap_or(0);
+    // subject + fresh twin + shard inputs
+    crate::runner::with_memory_budget(biggest * 4 + (1 << 20), || check(h, st))
 }
 
 pub fn check(h: &History, st: &mut Stats) -> CheckResult {
@@ -150,7 +188,7 @@ pub fn check(h: &History, st: &mut Stats) -> CheckResult {
                     }
                     if out.is_ok() {
                         completed += 1;
-                        if completed >= 2 && (disturbances > 0 || h.poison) {
+                        if completed >= 2 {
                             st.nontrivial_key(seed);
                         }
                         acc.clear();
@@ -168,6 +206,7 @@ pub fn check(h: &History, st: &mut Stats) -> CheckResult {
     st.classf("kind", h.kind.name());
     st.classf("poison", h.poison);
     st.classf("completed_rounds", completed.min(6));
+    st.classf("disturbed", disturbances > 0 || h.poison);
     for s in saw {
         st.classf("saw", s);
     }
